@@ -44,6 +44,12 @@ SPEC = {
 }
 WRAPPERS = ('Join', 'OrderBy', 'CommonTableExpression', 'TableColumn')
 EXTRA = [
+    # lists long enough to cross any "small list" threshold in the walker
+    "SELECT a FROM t WHERE b IN (" + ", ".join(str(i) for i in range(70)) + ") AND c = 1",
+    "SELECT a FROM t WHERE b IN (" + ", ".join(f"'s{i}'" for i in range(300)) + ")",
+    "SELECT a FROM t WHERE b NOT IN (" + ", ".join(str(i) for i in range(65)) + ", x, 66) OR f(" + ", ".join(f"a{i}" for i in range(80)) + ") > 0",
+    "INSERT INTO t (a) VALUES " + ", ".join(f"({i})" for i in range(90)),
+    "SELECT " + ", ".join(f"c{i}" for i in range(130)) + " FROM t ORDER BY " + ", ".join(f"c{i}" for i in range(70)),
     "SELECT CASE a WHEN b THEN c WHEN d THEN e ELSE f END, CASE WHEN g = 1 THEN h END FROM t",
     "SELECT extract(m FROM d), substring(s FROM 1 FOR 2), trim(x FROM y) FROM t",
     "SELECT sum(a) OVER (PARTITION BY b, c ORDER BY d DESC, e) AS w FROM t",
